@@ -166,6 +166,33 @@ def populate_publishes_after_fill(tree):
     return all(a for _, _, a in sites), sites
 
 
+def exit_swallowers():
+    """every `except` clause of the package that would swallow the handler's SystemExit (or a KeyboardInterrupt): a bare
+    `except:`, `except BaseException`, `except SystemExit/KeyboardInterrupt` whose body does not re-raise"""
+    out = []
+    for path in sorted((core.REPO / "nessai").rglob("*.py")):
+        try:
+            tree = ast.parse(path.read_text())
+        except SyntaxError as e:
+            raise TranslationError(f"{path}: {e}")
+        for node in ast.walk(tree):
+            if not isinstance(node, ast.ExceptHandler):
+                continue
+            names = []
+            if node.type is None:
+                names = ["<bare>"]
+            else:
+                elts = node.type.elts if isinstance(node.type, ast.Tuple) else [node.type]
+                names = [ast.unparse(e) for e in elts if ast.unparse(e).split(".")[-1] in
+                         ("BaseException", "SystemExit", "KeyboardInterrupt", "GeneratorExit")]
+            if not names:
+                continue
+            reraises = any(isinstance(n, ast.Raise) and n.exc is None for st in node.body for n in ast.walk(st))
+            if not reraises:
+                out.append(f"{path.relative_to(core.REPO)}:{node.lineno}:{'/'.join(names)}")
+    return out
+
+
 def gen(ctx):
     src1 = core.REPO / "nessai" / "samplers" / "nestedsampler.py"
     src2 = core.REPO / "nessai" / "samplers" / "importancesampler.py"
@@ -178,6 +205,7 @@ def gen(ctx):
             raise TranslationError(f"unknown tags {order}")
         guard = ins_guard_first(t2)
         publish, publish_sites = populate_publishes_after_fill(t1)
+        swallow = exit_swallowers()
         text1 = ast.get_source_segment(src1.read_text(), consume) + ast.get_source_segment(src1.read_text(), insert) \
             + ast.get_source_segment(src1.read_text(), _func(t1, "NestedSampler", "populate_live_points"))
         text2 = ast.get_source_segment(src2.read_text(), _func(t2, "ImportanceNestedSampler", "checkpoint"))
@@ -197,11 +225,13 @@ def gen(ctx):
         "/-- `populate_live_points` binds `self.live_points` only after its draw loop (sites: "
         + "; ".join(f"line {ln} `{tg}`" for ln, tg, _ in publish_sites) + ") -/\n"
         f"def populatePublishesAfterFill : Bool := {'true' if publish else 'false'}\n"
+        "/-- `except` clauses of the package that would swallow the signal handler's `SystemExit` without re-raising -/\n"
+        "def exitSwallowers : List String := [" + ", ".join('"' + x + '"' for x in swallow) + "]\n"
         "end NessaiVerif.Gen.Interrupt\n")
     path = core.LEAN / "NessaiVerif" / "Gen" / "Interrupt.lean"
     if not path.exists() or path.read_text() != body:
         path.write_text(body)
-    ctx.extra["translated"] = {"order": order, "ins_guard_first": guard, "populate_publishes_after_fill": publish,
+    ctx.extra["translated"] = {"order": order, "ins_guard_first": guard, "populate_publishes_after_fill": publish, "exit_swallowers": swallow,
                                "populate_live_points_assignments": [list(x) for x in publish_sites], "lines": [(t, ln, fn) for t, ln, fn in tags]}
     return tags
 
@@ -567,6 +597,7 @@ def correspond(ctx):
     flow_phase_test(ctx, lines, src)
     exit_code_test(ctx)
     populate_interrupt_test(ctx)
+    plot_signal_test(ctx)
     ins_test(ctx)
 
 
@@ -801,6 +832,63 @@ def populate_interrupt_test(ctx):
             shutil.rmtree(tmp, ignore_errors=True)
 
 
+def plot_signal_test(ctx):
+    """plot=True: a real signal delivered WHILE the periodic state / trace plots of update_state are being drawn must still end
+    the process with the configured code (seeded change C13-eA: the plot calls were wrapped in a bare `except:` which
+    swallowed the handler's SystemExit)"""
+    for sig, want, where in ((signal.SIGTERM, 9, "plot_state"), (signal.SIGINT, 0, "plot_trace")):
+        tmp = tempfile.mkdtemp(prefix="c13q_")
+        try:
+            pid = os.fork()
+            if pid == 0:
+                try:
+                    import logging
+                    logging.disable(logging.CRITICAL)
+                    from nessai.flowsampler import FlowSampler
+                    from nessai.samplers.nestedsampler import NestedSampler
+                    nlive = 10
+                    queue = [(k + 1, k + 1) for k in range(nlive)] + [(100 + k, 100 + k) for k in range(3 * nlive)]
+                    fs = FlowSampler(_model(), output=tmp, nlive=nlive, resume=False, plot=True, exit_code=want, signal_handling=True,
+                                     uninformed_proposal=Scripted, uninformed_proposal_kwargs={"queue": queue},
+                                     maximum_uninformed=np.inf, seed=1, log_on_iteration=False)
+                    fired = []
+
+                    def send(self_, *a, **k):
+                        if not fired:
+                            fired.append(True)
+                            os.kill(os.getpid(), sig)
+                            for _ in range(1000):
+                                pass
+                    setattr(NestedSampler, where, send)
+                    other = "plot_trace" if where == "plot_state" else "plot_state"
+                    setattr(NestedSampler, other, lambda self_, *a, **k: None)
+                    ns = fs.ns
+                    ns.initialise(live_points=True)
+                    for _ in range(2 * nlive + 1):
+                        ns.check_state()
+                        ns.consume_sample()
+                        ns.update_state()
+                    os._exit(3 if fired else 6)
+                except SystemExit as e:
+                    os._exit(int(e.code) if isinstance(e.code, int) else (0 if e.code is None else 4))
+                except BaseException:
+                    import traceback
+                    traceback.print_exc()
+                    os._exit(5)
+            _, status = os.waitpid(pid, 0)
+            code = os.waitstatus_to_exitcode(status)
+            case = {"signal": signal.Signals(sig).name, "during": "NestedSampler." + where, "configured_exit_code": want, "observed": code}
+            if code == 6:
+                ctx.broken("correspondence: the plotting hook of the signal-during-plot test was never reached", repr(case))
+            elif code != want:
+                ctx.oracle_fail("FlowSampler.safe_exit:exit-code:signal-during-plot",
+                                f"{signal.Signals(sig).name} while {where} was running: the process ended with {code} "
+                                f"(3 = it carried on sampling), configured exit code {want}", case)
+            ctx.case(("plot-signal", int(sig), where), True, case, kind="exit-code:during-plot")
+        finally:
+            shutil.rmtree(tmp, ignore_errors=True)
+
+
 def ins_test(ctx):
     """INS: the handler's checkpoint request in the middle of an iteration leaves the boundary checkpoint intact"""
     from unittest import mock
@@ -815,7 +903,12 @@ def ins_test(ctx):
         def wrapped(self_, n):
             path = os.path.join(tmp, "ckpt.pkl")
             d0 = hashlib.sha256(open(path, "rb").read()).hexdigest() if os.path.exists(path) else None
-            self_.checkpoint()            # what the signal handler requests (periodic=False)
+            # what the signal handler does: the REAL FlowSampler.terminate_run (close the pool, ask the sampler to checkpoint)
+            # on a stand-in whose `.ns` is this sampler (seeded change C13-eB: terminate_run passed force=True and the
+            # importance sampler's guard let forced non-periodic checkpoints through)
+            from nessai.flowsampler import FlowSampler
+            import types
+            FlowSampler.terminate_run(types.SimpleNamespace(ns=self_), code=signal.SIGTERM)
             orig(self_, n)
             self_.checkpoint()
             d1 = hashlib.sha256(open(path, "rb").read()).hexdigest() if os.path.exists(path) else None
